@@ -45,6 +45,7 @@ func TestReplay(t *testing.T) {
 func init() {
 	vkit.Register("buffer", vkit.N{Quick: 20000, Thorough: 1000000}, genBuffer, runBuffer)
 	vkit.Register("sync", vkit.N{Quick: 160, Thorough: 6000}, genSync, runSync)
+	vkit.Register("roundtrip", vkit.N{Quick: 16, Thorough: 400}, genRoundTrip, runRoundTrip)
 }
 
 // ---------------------------------------------------------------- (a) buffer: case data
